@@ -331,7 +331,7 @@ func (i *ICMPv6NeighborSolicitation) SerializeTo(b gopacket.SerializeBuffer, opt
 		return err
 	}
 
-	copy(buf, lotsOfZeros[:4])
+	copy(buf, lotsOfZeros[:20])
 	copy(buf[4:], i.TargetAddress)
 	return nil
 }
